@@ -51,6 +51,12 @@ func new(input string) *Lexer {
 
 // ReadChar advances the lexer to the next character in the input.
 func (l *Lexer) ReadChar() {
+	// Already past the last character: stay on the end-of-input position,
+	// so that EOF is reported at the same place however often it is requested
+	if l.readPosition > len(l.input) {
+		return
+	}
+
 	// If the previous character was a newline, reset column
 	if l.CurrentChar == '\n' {
 		l.Line++
